@@ -302,7 +302,10 @@ class Sequence:
             if not gradient:
                 _, jac = self.jacobian(variables, options=options)(values)
             else:
-                variables2 = variables if gradient is True else list(gradient)
+                if gradient is True:
+                    variables2 = variables
+                else:
+                    variables2 = [gradient] if isinstance(gradient, str) else list(gradient)
                 _, jac, hess = self.hessian(variables, variables2, options=options)(
                     values
                 )
